@@ -265,6 +265,17 @@ def Tensor.transpose {α} (t : Tensor α) (perm : List Nat) : Tensor α :=
 def popAt (l : List Nat) (i : Nat) : List Nat := l.take i ++ l.drop (i + 1)
 def insertAt (l : List Nat) (i : Nat) (x : Nat) : List Nat := l.take i ++ x :: l.drop i
 
+/-- two-large-axes branch of `_blockify`: split both axes into (blocks, block), move the
+right blocks axis next to the left one, fuse the two blocks axes -/
+def blockifyTwo {α} (t : Tensor α) (before middle after : List Nat) (lB rB bs nB : Nat) :
+    Tensor α :=
+  let splitShape := before ++ [lB, bs] ++ middle ++ [rB, bs] ++ after
+  let x := t.reshape splitShape
+  let lIx := before.length
+  let rIx := before.length + 2 + middle.length
+  let perm := insertAt (popAt (List.range splitShape.length) rIx) (lIx + 1) rIx
+  (x.transpose perm).reshape (before ++ [nB, bs] ++ middle ++ [bs] ++ after)
+
 /-- `_blockify` -/
 def blockify {α} (t : Tensor α) (m : BlocksMeta) : Tensor α :=
   match m.largeAxes with
@@ -274,33 +285,26 @@ def blockify {α} (t : Tensor α) (m : BlocksMeta) : Tensor α :=
     let after := t.shape.drop (a + 1)
     t.reshape (before ++ [m.numBlocks, m.largeBlockSize] ++ after)
   | [a, c] =>
-    let before := t.shape.take a
-    let middle := (t.shape.drop (a + 1)).take (c - a - 1)
-    let after := t.shape.drop (c + 1)
-    let lB := m.blocksPerLargeAxis.getD 0 0
-    let rB := m.blocksPerLargeAxis.getD 1 0
-    let splitShape := before ++ [lB, m.largeBlockSize] ++ middle ++ [rB, m.largeBlockSize] ++ after
-    let x := t.reshape splitShape
-    let lIx := before.length
-    let rIx := before.length + 2 + middle.length
-    let perm := insertAt (popAt (List.range splitShape.length) rIx) (lIx + 1) rIx
-    let y := x.transpose perm
-    y.reshape (before ++ [m.numBlocks, m.largeBlockSize] ++ middle ++ [m.largeBlockSize] ++ after)
+    blockifyTwo t (t.shape.take a) ((t.shape.drop (a + 1)).take (c - a - 1)) (t.shape.drop (c + 1))
+      (m.blocksPerLargeAxis.getD 0 0) (m.blocksPerLargeAxis.getD 1 0) m.largeBlockSize m.numBlocks
   | _ => t
+
+/-- two-large-axes branch of `_deblockify` -/
+def deblockifyTwo {α} (t : Tensor α) (blocksAxis c : Nat) (bpl paramShape : List Nat) :
+    Tensor α :=
+  let before := t.shape.take blocksAxis
+  let after := t.shape.drop (blocksAxis + 1)
+  let x := t.reshape (before ++ bpl ++ after)
+  let rIx := blocksAxis + 1
+  let perm := insertAt (popAt (List.range x.shape.length) rIx) (c + 1) rIx
+  (x.transpose perm).reshape paramShape
 
 /-- `_deblockify` -/
 def deblockify {α} (t : Tensor α) (m : BlocksMeta) : Tensor α :=
   match m.largeAxes with
   | [] => t.reshape m.paramShape
   | [_] => t.reshape m.paramShape
-  | [_, c] =>
-    let before := t.shape.take m.blocksAxis
-    let after := t.shape.drop (m.blocksAxis + 1)
-    let x := t.reshape (before ++ m.blocksPerLargeAxis ++ after)
-    let perm0 := List.range x.shape.length
-    let rIx := m.blocksAxis + 1
-    let perm := insertAt (popAt perm0 rIx) (c + 1) rIx
-    (x.transpose perm).reshape m.paramShape
+  | [_, c] => deblockifyTwo t m.blocksAxis c m.blocksPerLargeAxis m.paramShape
   | _ => t
 
 end PrecondVerif.Shapes
